@@ -31,6 +31,13 @@ func xmlStage(fname string, r *rand.Rand, n int, strs []string) (core.Stage, err
 		Cases: func(emit func(core.Case)) {
 			gp := gen.Default
 			gp.PLeaf, gp.PCont, gp.PList = 0.7, 0.7, 0.7
+			// every schema node is written (and read back) at least once, on every kind of store
+			for i, t := range coverTreesIf(strs == nil, f, r) {
+				for k, store := range stores {
+					emit(core.Case{"kind": "xmlw", "fixture": fname, "store": store, "tree": t, "at": abs.Path{},
+						"enumids": (i+k)%5 == 0, "interleave": 1 + r.Intn(1000000)})
+				}
+			}
 			for i := 0; i < n; i++ {
 				g := &gen.G{DS: f.DS, R: r, P: gp}
 				if strs != nil {
